@@ -115,7 +115,7 @@ def r1(repo, rep, callers=None, callees=None, floor_sites=0):
                        "caller's `%s`" % (p, short(act, 60), p),
                        func=s.caller, node=s.node,
                        construct="%s: %s <- %s" % (cal.name, p, short(act, 60)))
-            elif p in s.defaulted and s.dstar is None and s.star is None:
+            elif p in s.defaulted and s.dstar is None and s.star is None and p in T.SEMANTIC:
                 rep.ob("R1c", False, inst + " " + p,
                        detail="caller has `%s` but leaves the callee's `%s` at its default" % (p, p),
                        func=s.caller, node=s.node,
